@@ -188,6 +188,17 @@ def gen_c08(rnd, n, thorough=False):
         lines += ["snap d/a.wsp", "clicopy " + opt, "disk d/a.wsp", "clidiff src=s:%s dest=d:a.wsp from=%s until=%s archive=%d" % (sname, frm, until, arch)]
         tags = {'layout': lname, 'dest': destkind, 'window': wk, 'archive': 'all' if arch == -1 else ('bad' if arch < 0 or arch >= k else 'one'), 'copynan': copynan}
         cases.append({'id': 'c08-%d' % c, 'lines': lines, 'tags': tags})
+        if c % 7 == 3:
+            # -retentions names less than the existing files retain (it only describes a destination that has to be
+            # created): everything the window covers is copied all the same
+            big = CLI_LAYOUTS[rnd.pick(['two_1s', 'three_2s', 'three_1s'])]
+            rl = fill_ops(rnd, 's/a.wsp', big, m, xff, density=0.8, inconsistent=True)
+            rl += ["create d/a.wsp %s m %d x %08x" % (fmt_layout(big), m, xff), "sync d/a.wsp", "drop d/a.wsp"]
+            short = rnd.pick([[big[0]], [(big[0][0], max(big[0][1] // 4, 2))], [(s_, max(nn // 3, 2)) for s_, nn in big]])
+            rl += ["clicopy src=s:a.wsp dest=d:a.wsp from=0 until=0 archive=-1 copynan=0 m=%d x=%08x layout=%s" % (m, xff, lay_csv(short))]
+            observe_all(rl, 'd/a.wsp', big)
+            rl += ["clidiff src=s:a.wsp dest=d:a.wsp from=0 until=0 archive=-1"]
+            cases.append({'id': 'c08-%d-shortopt' % c, 'lines': rl, 'tags': {'layout': lname, 'dest': 'retentions_option_shorter', 'window': 'default', 'archive': 'all', 'copynan': 0}})
         if c % 9 == 4:
             # a destination the user may read but not write, differing from the source: nothing can be copied, so the
             # copy reports an error (never success without the work done), and the file is as it was
@@ -378,6 +389,13 @@ def gen_c09(rnd, n, thorough=False):
             gl.append("clidiff src=g:y/*.wsp dest=h: from=0 until=0 archive=-1 live=%s/y/b.wsp hold=h/y/a.wsp" % side)
             gl.append("clidiff src=g:y/*.wsp dest=h: from=0 until=0 archive=-1")
             cases.append({'id': 'c09-%d-live' % c, 'lines': gl, 'tags': {'layout': 'live', 'pair': 'glob_live', 'window': 'default'}})
+    # differing slots with -0 on one side (against a number, against an empty slot): the listing shows -0 as -0
+    l2 = CLI_LAYOUTS['two_1s']
+    S0 = l2[0][0]
+    zl = ["create s/z.wsp %s m 2 x 3f000000" % fmt_layout(l2), "many s/z.wsp 0 @ 3 @-%d 8000000000000000 @-%d 8000000000000000 @-%d %016x" % (2 * S0, 4 * S0, 6 * S0, fbits(3.0)), "sync s/z.wsp", "drop s/z.wsp",
+          "create d/z.wsp %s m 2 x 3f000000" % fmt_layout(l2), "many d/z.wsp 0 @ 2 @-%d %016x @-%d 8000000000000000" % (2 * S0, fbits(5.0), 6 * S0), "sync d/z.wsp", "drop d/z.wsp",
+          "clidiff src=s:z.wsp dest=d:z.wsp from=0 until=0 archive=0", "clidiff src=d:z.wsp dest=s:z.wsp from=0 until=0 archive=-1 remote=1"]
+    cases.append({'id': 'c09-negzero', 'lines': zl, 'tags': {'layout': 'two_1s', 'pair': 'negative_zero', 'window': 'default'}})
     # a file compared with itself: clean when it can be read -- and the same error as for any pair when it is missing,
     # is no whisper file, or lacks the selected archive
     l2 = CLI_LAYOUTS['two_1s']
@@ -491,6 +509,10 @@ def gen_c10(rnd, n, thorough=False):
             sl = item_tree(rnd, l2, 2, 0x3f000000, ['i1', 'i2', 'i3'], 2, 1.0)
             sl.append("clisum base=s item=i* src=*.wsp from=0 until=0 archive=-1 header=1 hold=s/i1/f1.wsp:1300")
             cases.append({'id': 'c10-%d-slowitem' % c, 'lines': sl, 'tags': {'layout': 'live', 'kind': 'slow_first_item', 'files': 6, 'window': 'default', 'remote': 0}})
+        if c == 7:
+            # a sum whose answer is longer than 32 MiB (millions of slots, a few of them written): the same through the directory and a server
+            cases.append({'id': 'c10-%d-bigsum' % c, 'lines': ["clibigsum n=%d" % 9000000],
+                          'tags': {'layout': 'big', 'kind': 'long_answer', 'files': 2, 'window': 'half', 'remote': 1}})
         if c == 6:
             # an item directory that exists but holds no file matching the pattern (alone, and as the second of two
             # items): "does not exist", through a directory and through a server alike
@@ -615,6 +637,20 @@ def gen_c11(rnd, n, thorough=False):
             for j in (1, 2, 0):
                 ll.append("clisumdiff " + cm + " slow=s/i1/f%d.wsp:300" % j)
             cases.append({'id': 'c11-%d-order' % c, 'lines': ll, 'tags': {'layout': 'order', 'dest': 'absent', 'files': 3, 'window': 'default'}})
+        if c == 3:
+            # one of the items is a symbolic link to a directory elsewhere: it is an item like any other, for sum-copy
+            # as for sum-diff
+            l2 = CLI_LAYOUTS[rnd.pick(['two_1s', 'three_1s'])]
+            ll = item_tree(rnd, l2, 2, 0x3f000000, ['ia'], 2, 0.6)
+            ll.append("dirlink other/tgt s/ib")
+            for q in range(2):
+                ll += fill_ops(rnd, 's/ib/f%d.wsp' % q, l2, 2, 0x3f000000, density=0.6, inconsistent=False)
+            cm = "base=s item=i* src=*.wsp destbase=d dest=sum.wsp from=0 until=0 archive=-1"
+            ll.append("clisumcopy " + cm + " m=2 x=3f000000 layout=%s" % lay_csv(l2))
+            for it in ('ia', 'ib'):
+                observe_all(ll, 'd/%s/sum.wsp' % it, l2)
+            ll.append("clisumdiff " + cm)
+            cases.append({'id': 'c11-%d-linkitem' % c, 'lines': ll, 'tags': {'layout': 'linked_item', 'dest': 'absent', 'files': 2, 'window': 'default'}})
         if c == 2:
             # several items while the sources are being written: the first item's destination is kept
             # locked for two clock seconds, meanwhile a source of the second item receives a point; the
@@ -741,6 +777,14 @@ def gen_c20(rnd, n, thorough=False):
         if len(lines) == 2 and lines[-1].startswith('hdrof'):
             observe_all(lines, 'g/x.wsp', layout, until='@+3', now='@+3')
         cases.append({'id': 'c20-%d' % c, 'lines': lines, 'tags': {'levels': len(layout), 'fill': fill, 'max': mx}})
+    # two generate commands for one missing path, overlapping: exactly one of them creates the file (the other one
+    # reports that it exists), and the file is the one the successful command describes
+    cases.append({'id': 'c20-overlap', 'lines': ["cligen2 dest=g/o.wsp layout=%s stagger=%d" % (lay_csv([(1, rnd.pick([200000, 220000])), (60, 10000)]), rnd.pick([20, 30, 40]))],
+                  'tags': {'levels': 2, 'fill': 1, 'max': 10, 'dest': 'two_overlapping_runs'}})
+    for mx in (2000000000, 1073741824):
+        gl = rnd.pick([[(1, 10), (2, 6)], [(1, 8), (4, 4), (16, 3)]])
+        cases.append({'id': 'c20-genmax-%d' % mx, 'lines': ["cligenerate dest=g/big.wsp m=2 x=3f000000 layout=%s max=%d fill=1" % (lay_csv(gl), mx), "hdrof g/big.wsp"],
+                      'tags': {'levels': len(gl), 'fill': 1, 'max': mx}})
     # a destination named through a linked directory and "..": the file is created where the operating system finds
     # that name (next to the directory the link points to), not where the text of the name seems to point
     layout = rnd.pick(lay)
@@ -1154,6 +1198,22 @@ def gen_c16(rnd, n, thorough=False):
         cases.append({'id': 'c16-%d' % c, 'lines': lines, 'tags': {'layout': lname, 'src': srckind, 'dest': destkind, 'sub': hist}})
         if c == 1:
             cases.append(many_files_case(rnd, 'c16-%d-many' % c, ['sum', 'sumcopy', 'sumdiff']))     # (sum-diff after sum-copy: with a missing destination AND an unreadable source, which of the two concurrent failures is reported is not determined)
+    # the source AND the existing destination are rejected by Open (two failures: which one is reported is not
+    # compared): the command returns an error -- it does not panic
+    for j in range(2):
+        layout = CLI_LAYOUTS['two_1s']
+        bl = []
+        for nm in ('s/i1/a.wsp', 'd/a.wsp', 'e/i1/sum.wsp'):
+            bl += ["create %s %s m 2 x 3f000000" % (nm, fmt_layout(layout)), "drop %s" % nm]
+        bl += ["clicopy src=s:i1/a.wsp dest=d:a.wsp from=0 until=0 archive=-1 copynan=0 m=2 x=3f000000 layout=%s nostatus=1 textout=%s" % (lay_csv(layout), rnd.pick(['file', 'discard'])),
+               "clisumcopy base=s item=i1 src=*.wsp destbase=e dest=sum.wsp from=0 until=0 archive=-1 m=2 x=3f000000 layout=%s nostatus=1" % lay_csv(layout),
+               "cliview src=s:i1/a.wsp from=0 until=0 archive=-1 header=1"]
+        cases.append({'id': 'c16-bothbad-%d' % j, 'lines': bl, 'tags': {'layout': 'two_1s', 'src': 'corrupt', 'dest': 'corrupt', 'sub': {'copy': 1, 'sumcopy': 1}}})
+    # generate with a bound close to 2^31 and coarser archives (the bound is scaled by the step)
+    for mx in (2000000000, 1073741824, 30000):
+        gl = rnd.pick([[(1, 10), (2, 6)], [(1, 8), (4, 4), (16, 3)], [(2, 6), (600, 3)]]) if mx > 30000 else [(1, 12), (86400, 3)]
+        cases.append({'id': 'c16-genmax-%d' % mx, 'lines': ["cligenerate dest=g/big%d.wsp m=2 x=3f000000 layout=%s max=%d fill=1" % (mx, lay_csv(gl), mx), "hdrof g/big%d.wsp" % mx],
+                      'tags': {'layout': 'gen', 'src': 'ok', 'dest': 'missing', 'sub': {'generate': 1}}})
     # destinations the user may read but not write, differing from what would be copied: no run reports success
     # without the work done -- copy and sum-copy report the error, the files are as they were
     for j in range(2):
